@@ -93,6 +93,8 @@ def exn_name(e: BaseException) -> str:
 # --------------------------------------------------------------------------
 def cz(n: int) -> str:
     n = int(n)
+    if abs(n) >> 256:        # a long token: Coq reads a decimal numeral of thousands of digits in quadratic time, a hexadecimal one at once
+        return f"({'-' if n < 0 else ''}{hex(abs(n))})%Z"
     return f"({n})%Z"
 
 
